@@ -26,7 +26,7 @@ ENDINGS = [
     'syntax_instr', 'syntax_unknown_instr', 'unknown_phase', 'act_syntax',
     'undefined_symbol', 'missing_home_file',
     'hard_setup', 'hard_before_assert', 'hard_assert', 'hard_cleanup', 'hard_act',
-    'missing_include', 'preproc_fail', 'preproc_nonexec',
+    'missing_include', 'preproc_fail', 'preproc_nonexec', 'preproc_killed', 'preproc_exit_255', 'preproc_stderr_only',
     'no_case_file', 'unknown_option', 'bad_utf8',
     'suite_syntax_error', 'suite_missing_include',
 ]
@@ -36,7 +36,8 @@ OUTPUTS = [('', ''), ('out text\n', 'err text\n'), ('no final newline', 'e'), ('
 # where the ending takes effect:  parse < conf < validation < execution
 _PARSE_TIME = {'syntax_instr', 'syntax_unknown_instr', 'unknown_phase', 'missing_include', 'suite_syntax_error',
                'suite_missing_include'}
-_BEFORE_PARSE = {'preproc_fail', 'preproc_nonexec', 'no_case_file', 'unknown_option', 'bad_utf8'}
+_BEFORE_PARSE = {'preproc_fail', 'preproc_nonexec', 'preproc_killed', 'preproc_exit_255', 'preproc_stderr_only',
+                 'no_case_file', 'unknown_option', 'bad_utf8'}
 
 
 def cases(tier, seed):
@@ -122,6 +123,19 @@ def build(case, probe_path):
     elif e == 'preproc_nonexec':
         as_ = [good]
         argv = ['--preprocessor', './no-such-preprocessor']
+    elif e == 'preproc_killed':
+        # the preprocessor dies from a signal (it has printed nothing, or a part of a valid case, before that)
+        as_ = [good]
+        files['pp-killed.sh'] = ('exe', '#!/bin/sh\n%skill -9 $$\n' % ('' if case['act_rc'] % 2 else 'head -2 "$1"\n'))
+        argv = ['--preprocessor', './pp-killed.sh']
+    elif e == 'preproc_exit_255':
+        as_ = [good]
+        files['pp-255.sh'] = ('exe', '#!/bin/sh\ncat "$1"\nexit 255\n')
+        argv = ['--preprocessor', './pp-255.sh']
+    elif e == 'preproc_stderr_only':
+        as_ = [good]
+        files['pp-err.sh'] = ('exe', '#!/bin/sh\necho oops >&2\nexit 2\n')
+        argv = ['--preprocessor', './pp-err.sh']
     elif e in ('no_case_file', 'unknown_option', 'bad_utf8'):
         as_ = [good]
     elif e == 'suite_syntax_error':
@@ -159,7 +173,7 @@ def expected(case):
         return {'kind': 'usage'}
     if e == 'bad_utf8':
         return {'kind': 'any_error_row'}
-    if e == 'preproc_fail' or e == 'preproc_nonexec':
+    if e in ('preproc_fail', 'preproc_nonexec', 'preproc_killed', 'preproc_exit_255', 'preproc_stderr_only'):
         return {'kind': 'table', 'ident': 'PRE_PROCESS_ERROR', 'sandbox': False}
     if e in ('syntax_instr', 'syntax_unknown_instr', 'unknown_phase'):
         return {'kind': 'table', 'ident': 'SYNTAX_ERROR', 'sandbox': False}
